@@ -28,11 +28,11 @@ FAMILIES = {
     "A": {"dms": [10.0, 12.0, 20.0, 5.0],                       # index 0 = folding DM
           "pk": [0, 10000, -20000, 50, -100, 3],               # P = 0.01 s + k * 1e-10 s  ->  dbins = k * nbins / 100
           "periods": [0.01 + k * 1e-10 for k in [0, 10000, -20000, 50, -100, 3]],
-          "dbn_per_bin": [0, 10000, -20000, 50, -100, 3], "dbd": 100, "tsamp": 1.0e4 / 4, "nsamp": 4},
+          "dbn_per_bin": [0, 10000, -20000, 50, -100, 3], "dbd": 100, "tsamp": 1.0e4 / 4, "nsamp": 4, "pfold": "1/100"},
     "B": {"dms": [10.0, 48.0, 30.0, 2.0],
           "pk": [0, 6, -5, 1, -1, 2],                            # P = 0.5 s + k * 0.01 s, tobs = 8 s  ->  dbins = k * 32 * nbins / 100
           "periods": [0.5 + k * 0.01 for k in [0, 6, -5, 1, -1, 2]],
-          "dbn_per_bin": [0, 192, -160, 32, -32, 64], "dbd": 100, "tsamp": 2.0, "nsamp": 4},
+          "dbn_per_bin": [0, 192, -160, 32, -32, 64], "dbd": 100, "tsamp": 2.0, "nsamp": 4, "pfold": "1/2"},
 }
 
 
@@ -88,8 +88,26 @@ def job(spec):
             if pv != PERIODS[0]:
                 c.update_period(pv)
             sp.append([rotations(c, o)[i][0] for i in range(nints)])
+        # the DM shift the dispersion law implies (exact rationals, computed here from the documented law - NOT from the code - and
+        # handed to TLC in fixed point q = 4096 with the float32 evaluation band of C09): sub-band j sits at fch1 + j*foff*nchans/nbands,
+        # shift = K * (DM - DM_fold) * (1/f_j^2 - 1/fch1^2) * nbins / P_fold bins, rounded to the nearest bin
+        from fractions import Fraction as Fr
+        K, LQ = Fr(4148808, 1000), 4096
+        law, lawband = [], []
+        for dmv in DMS:
+            dd = Fr(str(dmv)) - Fr(str(DMS[0]))
+            row, brow = [], []
+            for j in range(nbands):
+                fj, f1 = Fr(400) + j * Fr(-64, nbands), Fr(400)
+                scale = K * dd * nbins / Fr(fam["pfold"])
+                x = scale * (1 / fj ** 2 - 1 / f1 ** 2)
+                tt = abs(scale) * (1 / fj ** 2 + 1 / f1 ** 2)
+                row.append(int(x * LQ // 1))
+                brow.append(int(tt * LQ / 131072) + 2)
+            law.append(row)
+            lawband.append(brow)
         h = {"nints": nints, "nbands": nbands, "nbins": nbins, "sdm": sdm, "sp": sp, "dbn": [k * nbins for k in fam["dbn_per_bin"]],
-             "dbd": fam["dbd"]}
+             "dbd": fam["dbd"], "lawq": law, "lawband": lawband, "lq": LQ}
         for hist in spec["hists"]:
             cube, orig = make_cube(hdr, shape, fam)
             ev = []
